@@ -21,7 +21,7 @@ std::string Model::resolve(const std::string &s) const {
 }
 
 void Model::connect(int c, unsigned uid, unsigned pid, const std::vector<unsigned> &gids, bool fdpass) {
-  if ((size_t)c >= conns.size()) { conns.resize((size_t)c + 1); uniq.resize((size_t)c + 1); exp.resize((size_t)c + 1); }
+  if ((size_t)c >= conns.size()) { conns.resize((size_t)c + 1); uniq.resize((size_t)c + 1); exp.resize((size_t)c + 1); floating.resize((size_t)c + 1); }
   Conn &k = conns[(size_t)c];
   k = Conn();
   k.exists = true; k.alive = true;
@@ -92,6 +92,12 @@ static const char *E_UNKNOWN = "org.freedesktop.DBus.Error.ServiceUnknown";
 static const char *E_NOREPLY = "org.freedesktop.DBus.Error.NoReply";
 static const char *E_RULE_NOT_FOUND = "org.freedesktop.DBus.Error.MatchRuleNotFound";
 static const char *E_RULE_INVALID = "org.freedesktop.DBus.Error.MatchRuleInvalid";
+
+void Model::emit_floating(int r, Exp e) {
+  if (r < 0 || (size_t)r >= conns.size()) return;
+  if (!conns[(size_t)r].alive || conns[(size_t)r].unchecked) return;
+  floating[(size_t)r].push_back(std::move(e));
+}
 
 void Model::emit(int r, Exp e) {
   if (r < 0 || (size_t)r >= conns.size()) return;
@@ -181,7 +187,12 @@ void Model::route(int sender, const wire::Msg &m, int addressed) {
       }
     }
   }
-  // match-rule recipients
+  route_matches(sender, m, addressed, requested);
+}
+
+// Connections whose rules match.  Broadcasts (no destination) must arrive exactly once; copies of
+// messages addressed to someone else go only to eavesdroppers, who may, but need not, get them.
+void Model::route_matches(int sender, const wire::Msg &m, int addressed, bool requested) {
   for (size_t rc = 0; rc < conns.size(); rc++) {
     Conn &k = conns[rc];
     if (!k.alive || !k.hello || k.monitor || (int)rc == addressed) continue;
@@ -195,6 +206,7 @@ void Model::route(int sender, const wire::Msg &m, int addressed) {
     e.m = m;
     e.what = eavesdropping ? "eavesdropped copy" : "broadcast delivery";
     e.prop = eavesdropping ? "C05" : "C07";
+    e.optional = eavesdropping;
     if (eavesdropping) probes["eavesdrop_copy"]++; else probes["broadcast_copy"]++;
     emit((int)rc, e);
   }
@@ -219,6 +231,7 @@ void Model::name_signal(int c, const char *member, const std::string &name) {
   e.m = s;
   e.what = member;
   e.prop = "C04";
+  e.pre = true;
   if (can_receive && !can_receive(-1, s, c, c, false)) return;
   emit(c, e);
 }
@@ -305,7 +318,8 @@ void Model::disconnect(int c) {
       e.ignore_body = true;
       e.what = "NoReply because callee disconnected";
       e.prop = "C09";
-      if (!can_receive || can_receive(-1, e.m, pending[i].caller, pending[i].caller, true)) emit(pending[i].caller, e);
+      // produced by the bus's expiry machinery, not by the disconnect itself: position in the stream is free
+      if (!can_receive || can_receive(-1, e.m, pending[i].caller, pending[i].caller, true)) emit_floating(pending[i].caller, e);
       probes["noreply_on_disconnect"]++;
       pending.erase(pending.begin() + (long)i);
     } else if (pending[i].caller == c) {
@@ -319,6 +333,7 @@ void Model::disconnect(int c) {
   k.rules.clear();
   k.rule_texts.clear();
   exp[(size_t)c].clear();
+  floating[(size_t)c].clear();
 }
 
 void Model::resolve_choice(const std::string &name, const std::vector<int> &actual) {
@@ -601,6 +616,7 @@ void Model::process(int c, const wire::Msg &orig) {
       probes["message_before_hello"]++;
       k.unchecked = true;
       exp[(size_t)c].clear();
+      floating[(size_t)c].clear();
       return;
     }
   }
@@ -613,7 +629,8 @@ void Model::process(int c, const wire::Msg &orig) {
       return;
     }
     if (m.type == wire::T_CALL) driver(c, m);
-    // other message types addressed to the bus are ignored
+    // other message types addressed to the bus are ignored; eavesdroppers may see any of them
+    route_matches(c, m, -1, false);
     return;
   }
   if (!m.has_field(wire::F_DESTINATION)) {
@@ -622,9 +639,10 @@ void Model::process(int c, const wire::Msg &orig) {
     // exactly one reply or error from the bus (Peer interface or "unknown method").  The reply is
     // produced by the bus's own connection object: fields other than type/reply_serial are not asserted.
     probes["destinationless_nonsignal"]++;
-    if (m.type == wire::T_CALL && !(m.flags & wire::FL_NO_REPLY_EXPECTED)) {
+    if (m.type == wire::T_CALL) {
       Exp e;
       e.from_bus = true;
+      e.optional = (m.flags & wire::FL_NO_REPLY_EXPECTED) != 0;
       e.m.type = 0;               // "return or error"
       e.m.set_field(wire::F_REPLY_SERIAL, wire::Value::u32(m.serial));
       e.ignore_body = true;
@@ -651,8 +669,8 @@ void Model::process(int c, const wire::Msg &orig) {
       e.prop = "C05";
       emit(c, e);
     }
-    // Not delivered to the (missing) addressee; eavesdroppers/matchers may still see it? The
-    // statement says "never a delivery": nothing is expected anywhere.
+    // never delivered to an addressee; eavesdroppers may see it
+    route_matches(c, m, -1, false);
     return;
   }
   if (R == c) probes["send_to_self"]++;
@@ -693,7 +711,16 @@ bool satisfies(const Model &md, const Exp &e, const wire::Msg &o, std::string *w
   for (auto &f : o.fields)
     if (f.code >= wire::F_CONTAINER_INSTANCE) return no("unknown or container-instance header field delivered");
   if (e.m.reply_serial() != o.reply_serial()) return no("reply_serial");
-  if (e.m.type == 0) return true;
+  if (e.m.type == 0) {
+    // a reply the bus produces itself: whatever its form, it must say it comes from the bus
+    if (o.sender() != BUS) {
+      // listed known finding: replies the bus's own library produces for destination-less calls
+      // carry no SENDER (and echo a forged SENDER as DESTINATION)
+      if (md.known.count("C03-destinationless-reply-no-sender") && !o.has_field(wire::F_SENDER)) { md.finding_hits["C03-destinationless-reply-no-sender"]++; return true; }
+      return no("bus-originated reply carries sender '" + o.sender() + "' instead of org.freedesktop.DBus");
+    }
+    return true;
+  }
   if (e.m.type == wire::T_ERROR) {
     if (!e.any_error_name) {
       if (!e.error_any_of.empty()) {
